@@ -479,6 +479,7 @@ func c17Round(c *core.C) {
 			c.Cover("histories-linearizable")
 		case porcupine.Unknown:
 			c.Cover("histories-checker-timeout(inconclusive)")
+			c.Inconclusive("porcupine timed out on a " + which + " registry history")
 		case porcupine.Illegal:
 			var bad []string
 			for _, op := range ops {
